@@ -53,7 +53,11 @@ type c17tCase struct {
 	Procs       [][]c17tOp  `json:"procs"`
 	Yields      []c17tYield `json:"yields"`
 	Drain       int         `json:"drain"` // >0: drain sub-scenario with this many messages (1: on the client, 2: on the handle: Drain/10 messages)
+	CloseFail   int         `json:"closeFail"` // fault: Close of the underlying socket reports an error (bit 0: the server's socket, bit 1: the client's socket); the socket is closed all the same
 }
+
+// c17tCloseErr is what a failing close of the underlying socket reports (CloseFail).
+var c17tCloseErr = errors.New("verif: close of the underlying socket failed")
 
 var c17tPoints = []string{
 	"transport.Client.Close.elected", "transport.Client.Close.connClosed", "transport.Client.Close.beforePublish",
@@ -113,7 +117,13 @@ func c17tScenario(c c17tCase, v *vlib.Verdict) {
 	if c.HSDeadlineMs > 0 {
 		ccfg.HSDeadline = time.Now().Add(time.Duration(c.HSDeadlineMs) * time.Millisecond)
 	}
-	cli, _ := env.NewClient(vCliAddr, ccfg)
+	cli, cliSock := env.NewClient(vCliAddr, ccfg)
+	if c.CloseFail&1 != 0 {
+		env.SrvSock.FailClose(c17tCloseErr)
+	}
+	if c.CloseFail&2 != 0 {
+		cliSock.FailClose(c17tCloseErr)
+	}
 	// the handle becomes available when the server accepts
 	handleCh := make(chan *Handle, 1)
 	var handle *Handle
@@ -291,7 +301,8 @@ func c17tScenario(c c17tCase, v *vlib.Verdict) {
 	}
 	finishing.Store(true)
 	// ---- final closes: three concurrent callers each; all get the same result
-	closeAll := func(name string, f func() error) {
+	finalClose := map[int][]error{}
+	closeAll := func(obj int, name string, f func() error) {
 		res := make(chan error, 3)
 		for i := 0; i < 3; i++ {
 			go func() { res <- f() }()
@@ -308,17 +319,18 @@ func c17tScenario(c c17tCase, v *vlib.Verdict) {
 				return
 			}
 		}
+		finalClose[obj] = got
 		for _, e := range got[1:] {
 			if fmt.Sprint(e) != fmt.Sprint(got[0]) {
 				fail("C17:transport:close-results-differ:"+name, "concurrent %s.Close callers got different results: %v vs %v", name, got[0], e)
 			}
 		}
 	}
-	closeAll("Client", cli.Close)
+	closeAll(0, "Client", cli.Close)
 	if h := getHandle(0); h != nil {
-		closeAll("Handle", h.Close)
+		closeAll(1, "Handle", h.Close)
 	}
-	closeAll("Server", env.Srv.Close)
+	closeAll(2, "Server", env.Srv.Close)
 	select {
 	case <-procsDone:
 	case <-time.After(30 * time.Second):
@@ -330,7 +342,7 @@ func c17tScenario(c c17tCase, v *vlib.Verdict) {
 	mu.Lock()
 	closeRes := map[int][]error{}
 	for _, e := range events {
-		if e.Kind == 7 {
+		if e.Kind == 7 && !(e.Err != nil && strings.HasPrefix(e.Err.Error(), "verif: no handle")) {
 			closeRes[e.Obj] = append(closeRes[e.Obj], e.Err)
 		}
 		if e.Err == nil || e.Obj == 2 {
@@ -350,6 +362,26 @@ func c17tScenario(c c17tCase, v *vlib.Verdict) {
 		}
 	}
 	mu.Unlock()
+	// "close ... reports the same result to every caller": EVERY Close call of one endpoint within the case - the ones of
+	// the program (concurrent with anything), the three concurrent final ones, and therefore also repeated later ones -
+	// returned the same result, whether the underlying socket's close succeeded or failed.
+	closeCalls := 0
+	for obj, name := range []string{"Client", "Handle", "Server"} {
+		all := append(append([]error{}, closeRes[obj]...), finalClose[obj]...)
+		closeCalls += len(closeRes[obj])
+		for _, e := range all {
+			if fmt.Sprint(e) != fmt.Sprint(all[0]) {
+				fail("C17:transport:close-results-differ:"+name, "%d %s.Close calls of this case (%d in the program, %d final) did not all report the same result: %v vs %v (failing socket close injected: %v)",
+					len(all), name, len(closeRes[obj]), len(finalClose[obj]), all[0], e, c.CloseFail)
+			}
+		}
+	}
+	if c.CloseFail != 0 {
+		v.Label([]string{"", "socket-close-fails:server", "socket-close-fails:client", "socket-close-fails:both"}[c.CloseFail&3])
+		if closeCalls > 0 {
+			v.Label("socket-close-fails+close-in-program")
+		}
+	}
 	// classification
 	racing := 0
 	for _, pr := range c.Procs {
@@ -520,6 +552,7 @@ func c17tGen(t *rapid.T) c17tCase {
 		c.Drain = rapid.IntRange(1, 60).Draw(t, "drainN")
 		return c
 	}
+	c.CloseFail = rapid.SampledFrom([]int{0, 0, 0, 1, 2, 3}).Draw(t, "closeFail")
 	c.Peer = rapid.SampledFrom([]int{0, 0, 1, 2}).Draw(t, "peer")
 	c.VanishMs = rapid.SampledFrom([]int{0, 1, 5, 50, 500}).Draw(t, "vanish")
 	c.HSTimeoutMs = rapid.SampledFrom([]int{0, 2000, 2000}).Draw(t, "hst")
